@@ -3,6 +3,7 @@ import DimodModel.Generators
 import DimodModel.Generators2
 import DimodModel.RandomGen
 import DimodModel.Generators3
+import DimodModel.RandomCycle
 open Wire Pen PenShow Gen
 
 /-! Line-protocol driver for the C17 generator models (`DimodModel/Generators.lean`).
@@ -265,6 +266,19 @@ def answer3 (line : String) : Option String :=
     match n.toNat? with
     | some n => match acLoops n with | some b => "ok " ++ showBq b false | none => "err"
     | none => "bad-op"
+  | ["rcyc", adj, draws] => some <|
+    -- `_random_cycle`: adj = key>nb,nb;key>-;…  (dict order, set orders as iterated), draws = randint / choice indices
+    let parseEntry (e : String) : Option (Label × List Label) :=
+      match e.splitOn ">" with
+      | [k, ns] => do let k ← parseLabel? k; let ns ← parseLabels ns; pure (k, ns)
+      | _ => none
+    match (if adj = "-" then some [] else (adj.splitOn ";").mapM parseEntry), parseNats draws with
+    | some adj, some draws =>
+      match randomCycle adj draws with
+      | none => "bad-draws"
+      | some none => "none"
+      | some (some c) => "ok " ++ String.intercalate "," (c.map showLabel)
+    | _, _ => "bad-op"
   | ["fl", nodes, edges, cycles, gauge] => some <|
     match parseLabels nodes, parseEdges edges, parseCycles cycles, (if gauge = "-" then some none else (parseTerms gauge).map some) with
     | some nodes, some edges, some cycles, some gauge =>
